@@ -224,38 +224,132 @@ Proof.
   intros E H. cbn [rnode_parse]. rewrite E. cbn [bind]. destruct (N.eqb_spec (hd0 s1) 124); [contradiction|]. reflexivity.
 Qed.
 
-(* the wrapped pattern of rset_make parses to two nested groups around the atom sequence *)
-Lemma parse_wrap l f : seq_ok l 41 -> (length l < f)%nat ->
+(* ---- the flag re_bad stays clear ---- *)
+Lemma rep_bad_none s : memb (hd0 s) re_rep = false -> rep_bad s = false.
+Proof. intro H. unfold rep_bad. now rewrite rep_suffix_none. Qed.
+
+Section SeqBad.
+  Variable parse : bytes -> ReSyntax.res (option node * bytes)%type.
+  Variable pbad : bytes -> bool.
+
+  Lemma atom_bad_tok a rest : atom_ok a (hd0 rest) -> memb (hd0 rest) re_rep = false ->
+    rnode_atom_bad parse pbad (tok a ++ rest) = false.
+  Proof.
+    intros H Hr. destruct (tok_hd a rest H) as (H0 & H1 & H2 & H3). unfold rnode_atom_bad.
+    destruct (N.eqb_spec (hd0 (tok a ++ rest)) 0); [contradiction|].
+    destruct (N.eqb_spec (hd0 (tok a ++ rest)) 124); [contradiction|].
+    destruct (N.eqb_spec (hd0 (tok a ++ rest)) 41); [contradiction|].
+    destruct (N.eqb_spec (hd0 (tok a ++ rest)) 40); [contradiction|]. cbn [orb].
+    rewrite ratom_read_tok by exact H. cbn [snd]. apply rep_bad_none, Hr.
+  Qed.
+
+  Lemma seq_bad_atoms : forall l f r, seq_ok l 41 ->
+    rnode_seq_bad parse pbad f (flat_map tok l ++ 41 :: r) = false.
+  Proof.
+    induction l as [|a l IH]; intros f r Hok; (destruct f as [|f]; [reflexivity|]).
+    - cbn [flat_map app rnode_seq_bad]. rewrite rnode_atom_close. reflexivity.
+    - cbn [flat_map rnode_seq_bad]. rewrite <- app_assoc. destruct Hok as [Ha Hok].
+      assert (Hhd : hd0 (flat_map tok l ++ [41]) = hd0 (flat_map tok l ++ 41 :: r)).
+      { destruct (flat_map tok l); reflexivity. }
+      rewrite Hhd in Ha.
+      assert (Hr : memb (hd0 (flat_map tok l ++ 41 :: r)) re_rep = false) by (apply (atom_ok_rep parse a _ Ha)).
+      rewrite (rnode_atom_tok parse a _ Ha Hr).
+      rewrite (atom_bad_tok a _ Ha Hr). cbn [orb]. apply IH. exact Hok.
+  Qed.
+
+  Lemma grp_bad_some s1 x s2 : hd0 s1 <> 41 -> parse s1 = Ok (Some x, 41 :: s2) -> pbad s1 = false ->
+    rnode_grp_bad parse pbad (40 :: s1) = false.
+  Proof.
+    intros H E Hb. unfold rnode_grp_bad. cbn [hd0 tl]. destruct (N.eqb_spec (hd0 s1) 41); [contradiction|].
+    cbn [negb N.eqb Pos.eqb]. rewrite E, Hb. reflexivity.
+  Qed.
+
+  Lemma atom_bad_grp s1 g s2 : rnode_grp parse (40 :: s1) = Ok (Some g, s2) ->
+    rnode_grp_bad parse pbad (40 :: s1) = false -> memb (hd0 s2) re_rep = false ->
+    rnode_atom_bad parse pbad (40 :: s1) = false.
+  Proof.
+    intros E Hb H. unfold rnode_atom_bad. cbn [hd0 N.eqb Pos.eqb orb]. rewrite E, Hb. cbn [orb]. apply rep_bad_none, H.
+  Qed.
+
+  Lemma seq_bad_single f s x s2 : rnode_atom parse s = Ok (Some x, 41 :: s2) ->
+    rnode_atom_bad parse pbad s = false -> rnode_seq_bad parse pbad f s = false.
+  Proof.
+    intros E Hb. destruct f as [|f]; [reflexivity|]. cbn [rnode_seq_bad]. rewrite E, Hb. cbn [orb].
+    destruct f as [|f]; [reflexivity|]. cbn [rnode_seq_bad]. rewrite rnode_atom_close. reflexivity.
+  Qed.
+End SeqBad.
+
+Lemma parse_bad_of_seq f s x s1 : rnode_seq (rnode_parse f) f s = Ok (x, s1) -> hd0 s1 <> 124 ->
+  rnode_seq_bad (rnode_parse f) (rnode_parse_bad f) f s = false -> rnode_parse_bad (S f) s = false.
+Proof.
+  intros E H Hb. cbn [rnode_parse_bad]. rewrite E, Hb. destruct (N.eqb_spec (hd0 s1) 124); [contradiction|]. reflexivity.
+Qed.
+
+(* the wrapped pattern of rset_make parses to two nested groups around the atom sequence, completely,
+   and the flag re_bad is not set *)
+Lemma parse_wrap_both l f : seq_ok l 41 -> (length l < f)%nat ->
   rnode_parse (S (S (S (S (S f))))) ([40; 40] ++ flat_map tok l ++ [41; 41]) =
-  Ok (Some (NGrp (NGrp (cat_of l) 0 1 1) 0 1 1), []).
+  Ok (Some (NGrp (NGrp (cat_of l) 0 1 1) 0 1 1), []) /\
+  rnode_parse_bad (S (S (S (S (S f))))) ([40; 40] ++ flat_map tok l ++ [41; 41]) = false.
 Proof.
   intros Hok Hf.
   (* innermost: the atom sequence followed by "))" *)
+  assert (SeqI : rnode_seq (rnode_parse (S (S f))) (S (S f)) (flat_map tok l ++ [41; 41]) =
+                 Ok (match l with [] => None | _ => Some (cat_of l) end, [41; 41])).
+  { apply (rnode_seq_atoms _ l (S (S f)) [41] Hok). lia. }
   assert (Inner : flat_map tok l <> [] ->
             rnode_parse (S (S (S f))) (flat_map tok l ++ [41; 41]) = Ok (Some (cat_of l), [41; 41])).
   { intro Hne. apply rnode_parse_of_seq; [|cbn; lia].
-    rewrite (rnode_seq_atoms _ l (S (S f)) [41] Hok) by lia. destruct l; [cbn in Hne; congruence|reflexivity]. }
+    rewrite SeqI. destruct l; [cbn in Hne; congruence|reflexivity]. }
+  assert (InnerB : rnode_parse_bad (S (S (S f))) (flat_map tok l ++ [41; 41]) = false).
+  { eapply parse_bad_of_seq; [exact SeqI|cbn; lia|]. apply (seq_bad_atoms _ _ l _ [41] Hok). }
+  assert (Hhd : forall c t, flat_map tok l = c :: t -> c <> 41).
+  { intros c t E. destruct l as [|a l]; [discriminate|]. cbn [flat_map] in E.
+    destruct Hok as [Ha _]. pose proof (tok_hd a (flat_map tok l ++ [41])) as T.
+    assert (hd0 (tok a ++ flat_map tok l ++ [41]) = c).
+    { rewrite app_assoc, E. reflexivity. }
+    rewrite H in T. apply T. exact Ha. }
   assert (G2 : rnode_grp (rnode_parse (S (S (S f)))) (40 :: flat_map tok l ++ [41; 41]) = Ok (Some (NGrp (cat_of l) 0 1 1), [41])).
   { destruct (flat_map tok l) as [|c t] eqn:E in |- *.
     - destruct l as [|a l]; [reflexivity|]. exfalso. cbn [flat_map] in E. apply app_eq_nil in E. destruct E as [E _].
       destruct Hok as [Ha _]. destruct a; cbn in E, Ha; try discriminate; try contradiction.
       destruct Ha as [(lcs & -> & Hs & Hne & _) _]. apply Hne. apply chars_nil_iff; assumption.
     - rewrite <- E. apply rnode_grp_some; [|apply Inner; rewrite E; discriminate].
-      rewrite E. cbn [app hd0]. destruct l as [|a l]; [discriminate|]. cbn [flat_map] in E.
-      destruct Hok as [Ha _]. pose proof (tok_hd a (flat_map tok l ++ [41])) as T.
-      assert (hd0 (tok a ++ flat_map tok l ++ [41]) = c).
-      { rewrite app_assoc, E. reflexivity. }
-      rewrite H in T. apply T. exact Ha. }
+      rewrite E. cbn [app hd0]. eapply Hhd. exact E. }
+  assert (G2B : rnode_grp_bad (rnode_parse (S (S (S f)))) (rnode_parse_bad (S (S (S f)))) (40 :: flat_map tok l ++ [41; 41]) = false).
+  { destruct (flat_map tok l) as [|c t] eqn:E in |- *; [reflexivity|].
+    rewrite <- E. eapply grp_bad_some; [|apply Inner; rewrite E; discriminate|exact InnerB].
+    rewrite E. cbn [app hd0]. eapply Hhd. exact E. }
+  pose proof (rnode_atom_grp _ _ _ _ G2 eq_refl) as A2. cbn [set_rep] in A2.
+  pose proof (atom_bad_grp _ _ _ _ _ G2 G2B eq_refl) as A2B.
+  pose proof (rnode_seq_single _ (S f) _ _ _ A2) as Seq2.
   assert (P2 : rnode_parse (S (S (S (S f)))) (40 :: flat_map tok l ++ [41; 41]) = Ok (Some (NGrp (cat_of l) 0 1 1), [41])).
-  { apply rnode_parse_of_seq; [|cbn; lia]. apply rnode_seq_single.
-    apply (rnode_atom_grp _ _ _ _ G2). reflexivity. }
-  apply rnode_parse_of_seq; [|cbn; lia].
+  { apply rnode_parse_of_seq; [exact Seq2|cbn; lia]. }
+  assert (P2B : rnode_parse_bad (S (S (S (S f)))) (40 :: flat_map tok l ++ [41; 41]) = false).
+  { eapply parse_bad_of_seq; [exact Seq2|cbn; lia|]. eapply seq_bad_single; [exact A2|exact A2B]. }
   cbn [app]. change [41; 41] with ([41] ++ [41]) in *.
   assert (G1 : rnode_grp (rnode_parse (S (S (S (S f))))) (40 :: 40 :: flat_map tok l ++ [41] ++ [41]) = Ok (Some (NGrp (NGrp (cat_of l) 0 1 1) 0 1 1), [])).
   { apply rnode_grp_some; [cbn; lia|]. exact P2. }
+  assert (G1B : rnode_grp_bad (rnode_parse (S (S (S (S f))))) (rnode_parse_bad (S (S (S (S f))))) (40 :: 40 :: flat_map tok l ++ [41] ++ [41]) = false).
+  { eapply grp_bad_some; [cbn; lia|exact P2|exact P2B]. }
   pose proof (rnode_atom_grp _ _ _ _ G1 eq_refl) as A1. cbn [set_rep] in A1.
-  cbn [rnode_seq]. rewrite A1. cbn [bind]. reflexivity.
+  pose proof (atom_bad_grp _ _ _ _ _ G1 G1B eq_refl) as A1B.
+  assert (Seq1 : rnode_seq (rnode_parse (S (S (S (S f))))) (S (S (S (S f)))) (40 :: 40 :: flat_map tok l ++ [41] ++ [41]) =
+                 Ok (Some (NGrp (NGrp (cat_of l) 0 1 1) 0 1 1), [])).
+  { cbn [rnode_seq]. rewrite A1. cbn [bind]. reflexivity. }
+  split.
+  - apply rnode_parse_of_seq; [exact Seq1|cbn; lia].
+  - eapply parse_bad_of_seq; [exact Seq1|cbn; lia|].
+    cbn [rnode_seq_bad]. rewrite A1, A1B. reflexivity.
 Qed.
+
+Lemma parse_wrap l f : seq_ok l 41 -> (length l < f)%nat ->
+  rnode_parse (S (S (S (S (S f))))) ([40; 40] ++ flat_map tok l ++ [41; 41]) =
+  Ok (Some (NGrp (NGrp (cat_of l) 0 1 1) 0 1 1), []).
+Proof. intros H1 H2. apply (parse_wrap_both l f H1 H2). Qed.
+Lemma parse_wrap_bad l f : seq_ok l 41 -> (length l < f)%nat ->
+  rnode_parse_bad (S (S (S (S (S f))))) ([40; 40] ++ flat_map tok l ++ [41; 41]) = false.
+Proof. intros H1 H2. apply (parse_wrap_both l f H1 H2). Qed.
 
 (* ------------------------------------------------------------------------------------------ *)
 (* the atoms of a simple pattern *)
@@ -295,23 +389,26 @@ Qed.
 
 (* ------------------------------------------------------------------------------------------ *)
 (* re_groupcount of a simple pattern is 0 *)
-Lemma gcount_lit lit : forall rest n, Forall (fun c => memb c re_meta = false) lit ->
-  gcount (lit ++ rest) 0 n = gcount rest 0 n.
+Lemma gcount_lit lit : forall rest n dep, Forall (fun c => memb c re_meta = false) lit ->
+  gcount (lit ++ rest) 0 n dep = gcount rest 0 n dep.
 Proof.
-  induction lit as [|c lit IH]; intros rest n H; [reflexivity|]. inversion H; subst.
+  induction lit as [|c lit IH]; intros rest n dep H; [reflexivity|]. inversion H; subst.
   cbn [app gcount].
-  rewrite (memb_false_in c re_meta 92 H2), (memb_false_in c re_meta 91 H2), (memb_false_in c re_meta 40 H2) by (cbn; tauto).
-  cbn [andb]. apply IH. assumption.
+  rewrite (memb_false_in c re_meta 92 H2), (memb_false_in c re_meta 91 H2), (memb_false_in c re_meta 40 H2),
+    (memb_false_in c re_meta 41 H2) by (cbn; tauto).
+  apply IH. assumption.
 Qed.
 
-Lemma groupcount_simple sp : nometa (p_lit sp) -> re_groupcount (spat_string sp) = 0%nat.
+Lemma groupcount_opt_simple sp : nometa (p_lit sp) -> re_groupcount_opt (spat_string sp) = Some 0%nat.
 Proof.
-  destruct sp as [b1 b2 lit b3 b4]. unfold spat_string, re_groupcount. cbn [p_lbeg p_wbeg p_lit p_wend p_lend]. intro Hm.
+  destruct sp as [b1 b2 lit b3 b4]. unfold spat_string, re_groupcount_opt. cbn [p_lbeg p_wbeg p_lit p_wend p_lend]. intro Hm.
   assert (Hm' : Forall (fun c => memb c re_meta = false) lit) by (eapply Forall_impl; [|exact Hm]; cbn; tauto).
-  assert (T : gcount (lit ++ (if b3 then [92; 62] else []) ++ (if b4 then [36] else [])) 0 0 = 0%nat).
+  assert (T : gcount (lit ++ (if b3 then [92; 62] else []) ++ (if b4 then [36] else [])) 0 0 0 = Some 0%nat).
   { rewrite gcount_lit by exact Hm'. destruct b3, b4; reflexivity. }
   destruct b1, b2; cbn [app gcount N.eqb Pos.eqb andb hd0 negb]; exact T.
 Qed.
+Lemma groupcount_simple sp : nometa (p_lit sp) -> re_groupcount (spat_string sp) = 0%nat.
+Proof. intro H. unfold re_groupcount. now rewrite groupcount_opt_simple. Qed.
 
 (* ------------------------------------------------------------------------------------------ *)
 (* compilation *)
@@ -357,10 +454,11 @@ Lemma regcomp_wrap l : seq_ok l 41 -> (length l <= 5)%nat -> (length l <= length
   regcomp ([40; 40] ++ flat_map tok l ++ [41; 41]) =
   Ok (Some {| code := simple_code l; reserve := Z.of_nat (length l) + 7; tree := simple_tree l |}).
 Proof.
-  intros Hok H5 Hlen. unfold regcomp, parse_pat, parse_fuel.
+  intros Hok H5 Hlen. unfold regcomp, parse_pat, parse_bad, parse_fuel.
   replace (2 * length ([40; 40]%N ++ flat_map tok l ++ [41; 41]%N) + 2)%nat
     with (S (S (S (S (S (2 * length (flat_map tok l) + 5)))))) by (rewrite !app_length; cbn [length]; lia).
-  rewrite parse_wrap by (try assumption; lia). cbn [bind fst].
+  rewrite parse_wrap by (try assumption; lia). cbn [bind fst snd].
+  rewrite parse_wrap_bad by (try assumption; lia). cbn [orb negb].
   assert (C : count (NGrp (NGrp (cat_of l) 0 1 1) 0 1 1) = (Z.of_nat (length l) + 4)%Z).
   { cbn [count]. rewrite count_cat by assumption. rewrite (rep_count_11 (Z.of_nat (length l) + 2)) by (unfold NINST; lia). rewrite rep_count_11 by (unfold NINST; lia). lia. }
   rewrite C.
@@ -375,7 +473,8 @@ Lemma rset_make_simple sp flg : lit_valid (p_lit sp) -> nometa (p_lit sp) ->
   rset_make [Some (spat_string sp)] flg =
   Ok (Some (simple_rset (atoms_of sp) (if has flg RE_ICASE then REG_ICASE else 0%Z))).
 Proof.
-  intros Hv Hm. unfold rset_make. cbn [rset_build length Nat.ltb Nat.leb].
+  intros Hv Hm. unfold rset_make. cbn [rset_build length Nat.ltb Nat.leb somes existsb].
+  rewrite groupcount_opt_simple by exact Hm. cbn [orb].
   rewrite groupcount_simple by exact Hm.
   replace (([40] ++ [40] ++ spat_string sp ++ [41]) ++ [41]) with ([40; 40] ++ flat_map tok (atoms_of sp) ++ [41; 41])
     by (rewrite atoms_string; cbn [app]; rewrite <- app_assoc; reflexivity).
